@@ -801,6 +801,27 @@ fn kf_ods_interior_empty_row_when_first_column_is_not_a() {
     assert_eq!(r.rows().count(), 3);
 }
 
+#[test]
+fn kf_ods_whitespace_and_comments_between_cells_are_ignored() {
+    // the same two rows, once compact and once pretty-printed with a comment: both are well-formed ODF
+    let s = |t: &str| format!(r#"<table:table-cell office:value-type="string"><text:p>{t}</text:p></table:table-cell>"#);
+    let compact = format!("<table:table-row>{}{}</table:table-row><table:table-row>{}{}</table:table-row>", s("a"), s("b"), s("c"), s("d"));
+    let pretty = format!(
+        "<table:table-row>\n  {}\n  <!-- second column -->\n  {}\n</table:table-row>\n<table:table-row>\n  {}\n  {}\n</table:table-row>\n",
+        s("a"), s("b"), s("c"), s("d")
+    );
+    let read = |rows: &str| {
+        let mut wb: Ods<_> = Ods::new(Cursor::new(ods_with_rows(rows))).expect("a pretty-printed content.xml must open");
+        let name = wb.sheet_names()[0].clone();
+        wb.worksheet_range(&name).unwrap()
+    };
+    let a = read(&compact);
+    let b = read(&pretty);
+    assert_eq!((a.start(), a.end()), (b.start(), b.end()));
+    assert_eq!(a.cells().collect::<Vec<_>>(), b.cells().collect::<Vec<_>>());
+    assert_eq!(b.get_value((1, 1)), Some(&Data::String("d".into())));
+}
+
 // C10 / R-FMT-SCAN
 
 #[test]
